@@ -18,6 +18,14 @@ inductive Stmt where
   | count | keys
   /-- lru: `lock_entries_unlocked_for_at_least(0)`; the guards are dropped again at once, in order -/
   | expire
+  /-- `lock_all_entries()`: first poll of the future (the snapshot section); the stream is kept by the thread -/
+  | sopen
+  /-- one `poll_next` of the thread's stream by hand: a yielded guard is kept in the thread's list of stream guards -/
+  | snext
+  /-- drop the oldest guard the stream has yielded -/
+  | sdropg
+  /-- drop the stream: its unresolved items are cancelled one after the other -/
+  | sclose
 deriving Repr
 
 /-- what happens after a `release` section of a thread -/
@@ -27,6 +35,8 @@ inductive Cont where
   | evict (rest : List Nat) (slot : Nat) (v : Variant) (k n : Nat)
   /-- dropping the guards an expiry call returned: the remaining ones, then the program goes on -/
   | expired (rest : List Nat)
+  /-- a stream item found its entry valueless and dropped the guard: the `poll_next` loop goes on -/
+  | stream
 deriving Repr
 
 inductive Park where
@@ -43,6 +53,12 @@ inductive Park where
   | gCount | gKeys
   /-- the scan of an expiry call; the cut-off was computed when the clock was read, before the park -/
   | gExpire (cutoff : Option Nat)
+  /-- the snapshot section of `lock_all_entries` -/
+  | gSnap
+  /-- first poll of the stream item at the head of the ready queue: its `Site::Key` hook -/
+  | sKey
+  /-- the stream is being dropped: cancel item `h`, then the remaining ones -/
+  | gCancelS (h : Nat) (rest : List Nat)
   | done
 deriving Repr
 
@@ -54,6 +70,12 @@ inductive Event where
   | count (o : Out) | keys (o : Out)
   | ev (cands : List (Nat × Nat))
   | exp (guards : List (Nat × Nat))
+  | sopen
+  /-- `poll_next` yielded a guard for this key -/
+  | item (k : Nat)
+  | snext (ended : Bool)
+  /-- the drop of the stream is complete -/
+  | sclosed
   | skip
   | fail (o : Out)
 deriving Repr
@@ -67,6 +89,14 @@ structure Thread where
   ncand : Nat
   /-- slots holding a pending (manually polled) acquisition -/
   pend : List Nat := []
+  /-- the thread owns a `lock_all_entries` stream -/
+  sopen : Bool := false
+  /-- its unresolved items, in the order in which a dropped `FuturesUnordered` releases them -/
+  sitems : List Nat := []
+  /-- its ready-to-run queue -/
+  sready : List Nat := []
+  /-- guards the stream has yielded and the thread still holds, oldest first -/
+  sgot : List Nat := []
 deriving Repr
 
 structure Sched where
@@ -77,11 +107,38 @@ def hidOf (t slot : Nat) : Nat := 1000 * (t + 1) + slot
 def candBase (t : Nat) (ncand : Nat) : Nat := 1000 * (t + 1) + 500 + ncand
 
 def Sched.init (kind : Kind) (n : Nat) : Sched :=
-  { s := State.init kind, threads := List.replicate n ⟨[], .start, 0, [], 0, []⟩ }
+  { s := State.init kind, threads := List.replicate n { prog := [], park := .start, nslot := 0, got := [], ncand := 0 } }
 
 def insertSlot (x : Nat) : List Nat → List Nat
   | [] => [x]
   | y :: ys => if x ≤ y then x :: y :: ys else y :: insertSlot x ys
+
+/-- the per-key part of a stream item's poll has given it the lock: yield the guard if the entry has a value,
+otherwise drop it (result `true`: the `poll_next` call is complete) -/
+def itemGot (s : State) (th : Thread) (w : Nat) (evs : List Event) : State × Thread × List Event × Bool :=
+  let th1 := { th with sitems := th.sitems.erase w }
+  match (gop s w .value).2 with
+  | .optVal (some _) => (s, { th1 with sgot := th1.sgot ++ [w] }, evs ++ [.item (keyOf s w)], true)
+  | _ => ((stamp s w).1, { th1 with park := .gRelease w .stream }, evs, false)
+
+/-- the `poll_next` loop over the ready queue up to its next park point (result `false`) or its end (`true`) -/
+def spollRun (s : State) (th : Thread) (evs : List Event) : Nat → State × Thread × List Event × Bool
+  | 0 => (s, { th with park := .done }, evs ++ [.fail .bad], false)
+  | fuel + 1 =>
+    match th.sready with
+    | [] => (s, th, evs ++ [.snext th.sitems.isEmpty], true)
+    | w :: rest =>
+      match s.hs w with
+      | some hd =>
+        if hd.st = .replica then (s, { th with park := .sKey }, evs, false) else
+        -- woken item: its future resumes behind the hook
+        let r := acquire s w
+        let th1 := { th with sready := rest }
+        match r.2 with
+        | .bool true => itemGot r.1 th1 w evs
+        | .bool false => spollRun r.1 { th1 with sitems := w :: th1.sitems.erase w } evs fuel
+        | o => (r.1, { th1 with park := .done }, evs ++ [.fail o], false)
+      | none => (s, { th with park := .done }, evs ++ [.fail .bad], false)
 
 /-- run the hook-free statements of the program up to the next park point -/
 def advance (s : State) (t : Nat) (th : Thread) (evs : List Event) : Nat → State × Thread × List Event
@@ -91,7 +148,16 @@ def advance (s : State) (t : Nat) (th : Thread) (evs : List Event) : Nat → Sta
     | [] =>
       -- implicit release of the slots still in use, ascending slot order: guards are dropped, pending futures cancelled
       match th.got, th.pend with
-      | [], [] => (s, { th with park := .done }, evs)
+      | [], [] =>
+        -- then the guards the stream yielded, oldest first, then the stream itself
+        match th.sgot with
+        | g :: grest => ((stamp s g).1, { th with sgot := grest, park := .gRelease g .prog }, evs)
+        | [] =>
+          if th.sopen then
+            match th.sitems with
+            | w :: ws => (s, { th with sopen := false, sitems := [], sready := [], park := .gCancelS w ws }, evs)
+            | [] => (s, { th with sopen := false, sready := [], park := .done }, evs ++ [.sclosed])
+          else (s, { th with park := .done }, evs)
       | g :: grest, p :: prest =>
         if g < p then
           let h := hidOf t g
@@ -131,6 +197,24 @@ def advance (s : State) (t : Nat) (th : Thread) (evs : List Event) : Nat → Sta
       | .count => (s, { th with prog := rest, park := .gCount }, evs)
       | .keys => (s, { th with prog := rest, park := .gKeys }, evs)
       | .expire => (s, { th with prog := rest, park := .gExpire (cutoffOf s 0) }, evs)
+      | .sopen =>
+        if th.sopen then advance s t { th with prog := rest } (evs ++ [.skip]) fuel
+        else (s, { th with prog := rest, park := .gSnap }, evs)
+      | .snext =>
+        if th.sopen then
+          let r := spollRun s { th with prog := rest } evs (th.sready.length + 1)
+          if r.2.2.2 then advance r.1 t r.2.1 r.2.2.1 fuel else (r.1, r.2.1, r.2.2.1)
+        else advance s t { th with prog := rest } (evs ++ [.skip]) fuel
+      | .sdropg =>
+        match th.sgot with
+        | g :: grest => ((stamp s g).1, { th with prog := rest, sgot := grest, park := .gRelease g .prog }, evs)
+        | [] => advance s t { th with prog := rest } (evs ++ [.skip]) fuel
+      | .sclose =>
+        if th.sopen then
+          match th.sitems with
+          | w :: ws => (s, { th with prog := rest, sopen := false, sitems := [], sready := [], park := .gCancelS w ws }, evs)
+          | [] => advance s t { th with prog := rest, sopen := false, sready := [] } (evs ++ [.sclosed]) fuel
+        else advance s t { th with prog := rest } (evs ++ [.skip]) fuel
 
 def gotGuard (s : State) (t : Nat) (th : Thread) (slot : Nat) (evs : List Event) : State × Thread × List Event :=
   advance s t { th with got := insertSlot slot th.got } (evs ++ [.lock slot true]) (th.prog.length + th.got.length + th.pend.length + 3)
@@ -226,12 +310,38 @@ def stepThread (s : State) (t : Nat) (th : Thread) : State × Thread × List Eve
     | .prog => advance r.1 t th [] (fuelOf th)
     | .evict rest slot v k n => processCands r.1 th rest slot v k n []
     | .expired rest => processExpired r.1 t th rest []
+    | .stream =>
+      let q := spollRun r.1 th [] (th.sready.length + 1)
+      if q.2.2.2 then advance q.1 t q.2.1 q.2.2.1 (fuelOf q.2.1) else (q.1, q.2.1, q.2.2.1)
   | .gExpire cutoff =>
     let r := step s (.expire cutoff (List.range' (candBase t th.ncand) supplyLen))
     match r.2 with
     | .list gs =>
       processExpired r.1 t { th with ncand := th.ncand + gs.length } gs [Event.exp (gs.map fun c => (c, keyOf r.1 c))]
     | o => (r.1, { th with park := .done }, [.fail o])
+  | .gSnap =>
+    let r := step s (.snapshot (List.range' (candBase t th.ncand) supplyLen))
+    match r.2 with
+    | .list hs =>
+      advance r.1 t { th with ncand := th.ncand + hs.length, sopen := true, sitems := hs.reverse, sready := hs } [.sopen] (fuelOf th)
+    | o => (r.1, { th with park := .done }, [.fail o])
+  | .sKey =>
+    match th.sready with
+    | w :: rest =>
+      let r := enqueue s w
+      let th1 := { th with sready := rest }
+      let q := match r.2 with
+        | .bool true => itemGot r.1 th1 w []
+        | .bool false => spollRun r.1 { th1 with sitems := w :: th1.sitems.erase w } [] (rest.length + 1)
+        | o => (r.1, { th1 with park := .done }, [.fail o], false)
+      if q.2.2.2 then advance q.1 t q.2.1 q.2.2.1 (fuelOf q.2.1) else (q.1, q.2.1, q.2.2.1)
+    | [] => (s, { th with park := .done }, [.fail .bad])
+  | .gCancelS h rest =>
+    let r := cancel s h
+    if isFail r.2 then (r.1, { th with park := .done }, [.fail r.2]) else
+    match rest with
+    | h' :: rest' => (r.1, { th with park := .gCancelS h' rest' }, [])
+    | [] => advance r.1 t th [.sclosed] (fuelOf th)
   | .gCount => advance (count s).1 t th [.count (count s).2] (fuelOf th)
   | .gKeys => advance (keys s).1 t th [.keys (keys s).2] (fuelOf th)
   | .done => (s, th, [])
@@ -250,18 +360,36 @@ def runnable (s : State) (t : Nat) (th : Thread) : Bool :=
 def statusChar (s : State) (t : Nat) (th : Thread) : String :=
   match th.park with
   | .start => "S"
-  | .gLookup .. | .gLookupPoll .. | .gCancel _ | .gCleanup _ | .gRelease .. | .gCount | .gKeys | .gExpire _ => "G"
-  | .key .. | .keyPoll _ => "K"
+  | .gLookup .. | .gLookupPoll .. | .gCancel _ | .gCleanup _ | .gRelease .. | .gCount | .gKeys | .gExpire _
+  | .gSnap | .gCancelS .. => "G"
+  | .key .. | .keyPoll _ | .sKey => "K"
   | .blocked _ => if runnable s t th then "W" else "B"
   | .done => "D"
+
+/-- the waiter whose wake-up the section at the thread's park point performs: the one the released (or cancelled, already
+assigned) mutex is handed to -/
+def wakeOf (s : State) (p : Park) : Option Nat :=
+  match p with
+  | .gRelease h _ => if (release s h).2 = .unit then nextWaiter s h else none
+  | .gCancel h => if (cancel s h).2 = .unit then nextWaiter s h else none
+  | .gCancelS h _ => if (cancel s h).2 = .unit then nextWaiter s h else none
+  | _ => none
+
+/-- a woken stream item re-enters the ready queue of the stream (of whichever thread) that owns it -/
+def wakeThread (th : Thread) (w : Option Nat) : Thread :=
+  match w with
+  | some w => if th.sitems.contains w then { th with sready := th.sready ++ [w] } else th
+  | none => th
 
 def Sched.step (sc : Sched) (t : Nat) : Sched × Option (List Event) :=
   match sc.threads[t]? with
   | none => (sc, none)
   | some th =>
     if runnable sc.s t th then
-      let r := stepThread sc.s t th
-      ({ s := r.1, threads := sc.threads.set t r.2.1 }, some r.2.2)
+      let w := wakeOf sc.s th.park
+      -- the wake-up is part of the section at the park point: it precedes the rest of the segment
+      let r := stepThread sc.s t (wakeThread th w)
+      ({ s := r.1, threads := (sc.threads.set t r.2.1).mapIdx fun i x => if i = t then x else wakeThread x w }, some r.2.2)
     else (sc, none)
 
 end Lockable
